@@ -46,6 +46,7 @@ Names == <<
   "C14_UsedIsSum", "C14_WorkerIsSum", "C14_ShardPledgedIsSum", "C14_PoolIsSum",
   "C15_Placement",
   "C17_BindingFunctional", "C17_ListMatchesBinding", "C17_SidPayAddrBound", "C17_KidInjective", "C17_BindingProven", "C17_PayAddrChange",
+  "C20_SuperImpliesRequirements", "C20_PromotionNeedsStatus",
   "C16_IdsFresh", "C16_OneInFlight", "C16_BaseIsLatest", "C16_HistoryChain" >>
 
 V(app, ok) == [app |-> app, ok |-> ~app \/ ok]
@@ -103,6 +104,8 @@ Verdict(name, x, g) ==
     [] name = "C17_KidInjective"         -> V(TRUE, C17_KidInjective(s))
     [] name = "C17_BindingProven"        -> V(IsTx(x), C17_BindingProven(x))
     [] name = "C17_PayAddrChange"        -> V(IsTx(x), C17_PayAddrChange(x, g.cfg))
+    [] name = "C20_SuperImpliesRequirements" -> V(TRUE, C20_SuperImpliesRequirements(s, g.cfg))
+    [] name = "C20_PromotionNeedsStatus" -> V(IsTx(x), C20_PromotionNeedsStatus(x, g.cfg))
     [] name = "C16_IdsFresh"             -> V(TRUE, C16_IdsFresh(x))
     [] name = "C16_OneInFlight"          -> V(C16_Update_app(x), C16_OneInFlight(x))
     [] name = "C16_BaseIsLatest"         -> V(C16_Update_app(x), C16_BaseIsLatest(x))
